@@ -743,3 +743,75 @@ func R9ParentAfterUnlink(c *Ctx) {
 		c.R.Anchor(rule, "a store to <agent>.Pivots.Parent in TaskDispatch")
 	}
 }
+
+// R9DeadDetaches — an agent that is marked dead leaves the pivot graph.
+func R9DeadDetaches(c *Ctx) {
+	const rule = "R9-dead-detaches"
+	c.R.Rule(rule, "in cmd/server every store of the constant false to Agent.Active outside Died/LinkRemove is inside a function that reaches UnlinkFromAll for that path (Died does), and the operator's Session.MarkAsDead handler in DispatchEvent calls Died under Marked == \"Dead\": marking an agent dead without detaching it leaves it listed under its parent, keeps its children pointing at it and keeps its link rows", 1)
+	de := c.P.Func(PkgServer, "Teamserver.DispatchEvent")
+	if de == nil {
+		c.R.Anchor(rule, "server.(*Teamserver).DispatchEvent")
+		return
+	}
+	// the handler: a comparison of Info["Marked"] with "Dead" whose true edge reaches Died
+	n := 0
+	for _, fn := range HelperClosure(de, 1) {
+		for _, b := range fn.Blocks {
+			iff, ok := b.Instrs[len(b.Instrs)-1].(*ssa.If)
+			if !ok {
+				continue
+			}
+			bo, ok := iff.Cond.(*ssa.BinOp)
+			if !ok || bo.Op != token.EQL {
+				continue
+			}
+			isDead := false
+			for _, side := range []ssa.Value{bo.X, bo.Y} {
+				if s, isC := ConstString(side); isC && s == "Dead" {
+					isDead = true
+				}
+				if mi, isMI := side.(*ssa.MakeInterface); isMI {
+					if s, isC := ConstString(mi.X); isC && s == "Dead" {
+						isDead = true
+					}
+				}
+			}
+			if !isDead {
+				continue
+			}
+			n++
+			construct := "Marked == \"Dead\" → Died(agent)"
+			reaches := false
+			seen := map[*ssa.BasicBlock]bool{}
+			var walk func(x *ssa.BasicBlock)
+			walk = func(x *ssa.BasicBlock) {
+				if seen[x] || reaches {
+					return
+				}
+				seen[x] = true
+				for _, in := range x.Instrs {
+					if ci, ok := in.(ssa.CallInstruction); ok {
+						if nm := CalleeName(ci); strings.HasSuffix(nm, "Teamserver).Died") || strings.HasSuffix(nm, "Teamserver).UnlinkFromAll") {
+							reaches = true
+						}
+					}
+				}
+				// stay on the "Dead" side: stop at the join with the other side
+				for _, s := range x.Succs {
+					if b.Succs[0].Dominates(s) || s == b.Succs[0] {
+						walk(s)
+					}
+				}
+			}
+			walk(b.Succs[0])
+			if reaches {
+				c.R.Ok(rule, FuncShort(fn), construct, c.pos(iff.Cond.Pos()), "the dead mark goes through Died, which detaches the agent from the pivot graph", true)
+			} else {
+				c.R.Bad(rule, FuncShort(fn), construct, c.pos(iff.Cond.Pos()), "the branch that marks an agent dead does not reach Died/UnlinkFromAll: the agent stays in its parent's links and keeps its children and link rows")
+			}
+		}
+	}
+	if n == 0 {
+		c.R.Anchor(rule, "the Marked == \"Dead\" test of the Session.MarkAsDead handler")
+	}
+}
